@@ -52,6 +52,10 @@ def dyn_targets(fx, t):
         return [s["def"] for s in ent["sources"] if s.get("def") in fx.fns] if ent else []
     if not (st.startswith("dyn ") and tr):
         return []
+    if st in fx.dyn:
+        # the very dyn type of the receiver (generic arguments included: `dyn SubmitFn<M, SendFuture>` and
+        # `dyn SubmitFn<M, Result<()>>` are different tables)
+        return [s["def"] for s in fx.dyn[st]["sources"] if s.get("def") and s["def"] in fx.fns]
     out = []
     for key, ent in fx.dyn.items():
         if key.startswith("dyn " + tr + "<") or key == "dyn " + tr:
